@@ -328,6 +328,13 @@ func judgeC08(w *World, sub *subscriber, src *Peer, p *core.Plan, res *core.Resu
 			}
 			connGen[c.C] = gen
 		case c.Call == "Subscribe" && c.CID == "sub" && c.Err == nil:
+			if g, ok := connGen[c.C]; ok && g != gen {
+				// the call belongs to a connection that has been displaced in the
+				// meantime (its Setup is older than the current session): it changed
+				// the session object that is being discarded, not the current one
+				res.Count("subscribe_on_displaced_session", 1)
+				continue
+			}
 			for _, s := range c.P.(*packet.Subscribe).Subscriptions {
 				st.subs[s.Topic] = int(s.QOS)
 			}
